@@ -178,7 +178,30 @@ def grid1d_facts(mod, f):
     detail = "guard not found"
     if guard is not None and ret_i is not None and guard[0] < ret_i:
         t = " ".join(mod.text(guard[1].test).split())
-        nan_safe = t.startswith("not (") and "numpy.all(" in t and " or " in t and "> 0" in t and "< 0" in t
+
+        def sign_all(n):
+            """(+1|-1, operand text) for numpy.all(<x strictly above/below zero>), either spelling"""
+            if not (isinstance(n, ast.Call) and mod.text(n.func) in ("numpy.all", "all") and len(n.args) == 1):
+                return None
+            c = n.args[0]
+            if not (isinstance(c, ast.Compare) and len(c.ops) == 1 and isinstance(c.ops[0], (ast.Lt, ast.Gt))):
+                return None
+            a, b = c.left, c.comparators[0]
+            zero = lambda z: isinstance(z, ast.Constant) and z.value == 0 and not isinstance(z.value, bool)
+            if zero(b) and not zero(a):
+                return (1 if isinstance(c.ops[0], ast.Gt) else -1, mod.text(a))
+            if zero(a) and not zero(b):
+                return (1 if isinstance(c.ops[0], ast.Lt) else -1, mod.text(b))
+            return None
+
+        tst = guard[1].test
+        parts = None
+        if isinstance(tst, ast.UnaryOp) and isinstance(tst.op, ast.Not) and isinstance(tst.operand, ast.BoolOp) and isinstance(tst.operand.op, ast.Or) and len(tst.operand.values) == 2:
+            parts = [sign_all(v) for v in tst.operand.values]
+        elif isinstance(tst, ast.BoolOp) and isinstance(tst.op, ast.And) and len(tst.values) == 2 and all(isinstance(v, ast.UnaryOp) and isinstance(v.op, ast.Not) for v in tst.values):
+            parts = [sign_all(v.operand) for v in tst.values]
+        # NaN-safe: the raise is taken unless one of the two positive statements holds
+        nan_safe = bool(parts) and None not in parts and {p[0] for p in parts} == {1, -1} and parts[0][1] == parts[1][1]
         ok = nan_safe
         detail = t
     facts["strict-monotonicity guard (NaN-safe `not (all>0 or all<0)` form) dominates the return"] = (ok, detail, guard[1] if guard else None)
